@@ -85,7 +85,7 @@ def run(tier, seed, only_cands=None):
         "under the hypotheses fmt_shape and fmt_round (digits parse back to the float), checked on sampled floats by C12",
         "todate|fromdate and [paths]==[path(..)][1:] have no theorem; they are evaluated on the implementation only "
         "(laws stream), as are tojson|fromjson and tostring|tonumber on the real encoding/json and strconv",
-        "equality of results is jq equality written in the harness (exact on integers, double otherwise), not gojq.Compare",
+        "returned-its-input is decided exactly on the Go side (integer inputs by exact value, double inputs as that double), never through gojq.Compare or ==",
     ]
     proved = c.prove(PROPS)
     proved = c.prove(PROPS_B) and proved
